@@ -120,8 +120,30 @@ func runC02Mesh(t *testing.T, names []string, edges []c01Edge, listenOn map[stri
 					}
 					senders[key] = pc
 				}
-				// readers must exist before a local delivery, which is synchronous
-				n, err := pc.WriteTo(s.payload, m.nodes[s.src].NewAddr(s.dst, s.dstSvc))
+				// a local delivery is synchronous (the write returns when a reader has taken the datagram): the
+				// listeners are drained while the write is in progress
+				var n int
+				var err error
+				wdone := make(chan struct{})
+				go func() {
+					n, err = pc.WriteTo(s.payload, m.nodes[s.src].NewAddr(s.dst, s.dstSvc))
+					close(wdone)
+				}()
+				for j := 0; j < 200; j++ {
+					synctest.Wait()
+					select {
+					case <-wdone:
+						j = 200
+					default:
+						got = append(got, drainListeners(listeners)...)
+					}
+				}
+				select {
+				case <-wdone:
+				default:
+					out.violate("dgram:write-never-returns:"+class, "WriteTo from %s to %s:%q did not return", key, s.dst, s.dstSvc)
+					return
+				}
 				if err != nil || n != len(s.payload) {
 					out.violate("dgram:write-result:"+class, "WriteTo(%d bytes) from %s to %s:%q returned %d, %v", len(s.payload), key, s.dst, s.dstSvc, n, err)
 				}
